@@ -992,6 +992,10 @@ namespace fixedmath
       x = -x;
       sign_ = true;
       }
+    //for x >= 2^24 atan differs from atan(2^24) by less than 2^-24, larger arguments overflow 64bit intermediate results of atan_sum
+    constexpr fixed_internal atan_arg_limit { fixed_internal(1) << 40 };
+    if( x > atan_arg_limit )
+      x = atan_arg_limit;
     fixed_internal result{};
     if( x < _7o16 ) 
       result = atan<prec_>( x );
